@@ -18,7 +18,7 @@ CLAIMED = {
         "technique": TECH_K,
     },
     "C06": {
-        "text": "Sequential contracts of the handle lifecycle kernels (ensure_mutable, set_read_only, poison, state, is_active_handle — bodies copied verbatim each run into a view struct with the real field types) over all 256 lifecycle bytes and all flag values: writes admitted iff Active and not read-only; a closed/deleted/poisoned/db-read-only handle cannot be re-enabled; poison preserves delete states and never yields Active. Thin slice of C06: the cancellation/queueing/storage-silence half is not decidable by contracts here.",
+        "text": "Sequential contracts of the handle lifecycle kernels (ensure_mutable, set_read_only, poison, state, is_active_handle — bodies copied verbatim each run into a view struct with the real field types) over all 256 lifecycle bytes and all flag values: writes admitted iff Active and not read-only; a closed/deleted/poisoned/db-read-only handle cannot be re-enabled; poison preserves delete states and never yields Active; the sequential decision kernels of the async close() (admission loop; the lifecycle re-check after the exclusive gate drained: a handle poisoned while close was queued never reaches flush_inner) and begin_delete() (admission closed for good from every state). Thin slice of C06: the cancellation/queueing/storage-silence half is not decidable by contracts here.",
         "note": "Scope: sequential lifecycle state machine only.",
         "technique": TECH_K,
     },
